@@ -153,6 +153,16 @@ Theorem C05_idempotence : forall a,
   union [a; a] = a /\ intersect [a; a] = a /\ setdiff a a = [] /\ symdiff a a = [].
 Proof. intros a. split; [apply union_self|]. split; [apply intersect_self|]. split; [apply setdiff_self | apply symdiff_self]. Qed.
 
+Theorem C05_idempotence_nary : forall a n, union (a :: repeat a n) = a /\ intersect (a :: repeat a n) = a.
+Proof. intros a n. split; [apply union_repeat | apply intersect_repeat]. Qed.
+
+Theorem C05_empty_operand : forall a,
+  union [a; []] = a /\ union [[]; a] = a /\ intersect [a; []] = [] /\ setdiff a [] = a /\ setdiff [] a = [].
+Proof.
+  intros a. split; [apply union_nil_r|]. split; [apply union_nil_l|]. split; [apply intersect_nil_r|].
+  split; [apply setdiff_empty_r | apply setdiff_empty_l].
+Qed.
+
 Theorem C05_symdiff_commutes : forall a b, Permutation (symdiff a b) (symdiff b a).
 Proof. exact symdiff_comm. Qed.
 
@@ -209,3 +219,5 @@ Print Assumptions C05_union_is_first_plus_setdiff.
 Print Assumptions C05_setdiff_removes_every_key_of_second.
 Print Assumptions C05_setdiff_idempotent.
 Print Assumptions C05_union_keys_are_intersect_or_symdiff.
+Print Assumptions C05_idempotence_nary.
+Print Assumptions C05_empty_operand.
